@@ -7,6 +7,7 @@ import (
 	"go/constant"
 	"go/token"
 	"go/types"
+	"regexp"
 	"sort"
 	"strings"
 
@@ -280,6 +281,19 @@ func (r *Run) obligeMulti(sts []*State, goals []Term, kind, name string, tags []
 		posS = fmt.Sprintf("%s:%d", p.Filename, p.Line)
 	}
 	g, isKnown := r.guards[name]
+	if !isKnown {
+		// a guarded known finding on a safety obligation follows the obligation when a refactoring renumbers it or moves
+		// the operation into an inlined helper (`F#overflow.1` -> `F#overflow@helper.1`): the guard, evaluated on F's entry
+		// state, still delimits exactly the failing inputs, and outside it the obligation must hold as before
+		if ck := safetyClassKey(name); ck != "" {
+			for k, gk := range r.guards {
+				if gk != nil && safetyClassKey(k) == ck {
+					g, isKnown = gk, true
+					break
+				}
+			}
+		}
+	}
 	var scripts, kscripts []string
 	for i, st := range sts {
 		var b strings.Builder
@@ -1137,4 +1151,14 @@ func (r *Run) typeFacts(st *State, t Term, T types.Type) {
 	case *types.Pointer, *types.Map:
 		r.assume(st, app("Bool", ">=", t, intLit(0)))
 	}
+}
+
+var safetyClassRe = regexp.MustCompile(`^(.*#(?:nil|index|overflow|alloc|div0|assert-type|nilmap-write))(?:@[^.]*)?\.\d+$`)
+
+// safetyClassKey: "pkg.F#overflow.3" and "pkg.F#overflow@helper.1" -> "pkg.F#overflow"; "" for other obligations.
+func safetyClassKey(name string) string {
+	if m := safetyClassRe.FindStringSubmatch(name); m != nil {
+		return m[1]
+	}
+	return ""
 }
